@@ -1,6 +1,7 @@
 import HpackVerif.Props.Common
 import HpackVerif.Proofs.Complete4
 import HpackVerif.Proofs.IntExtra
+import HpackVerif.Proofs.Prefix
 /-! # C05 — the Decoder rejects every malformed block, with the documented error classes
 
 Well-formedness "for the current context and limits" is the L0 notion: the octets are
@@ -38,6 +39,30 @@ theorem error_class (st : DecState) (h : Props.DecReach st) (rcs : List (Rep × 
   unfold BlockAgrees at hm
   rw [hi] at hm
   exact hm.1
+
+/-- **the first defect decides, whatever follows it**: if a list of representations fails at some
+    representation (`interpPrefix`: the RFC meaning without the end-of-block check), then the octets of that
+    list followed by ANY octets at all — well-formed or garbage — are refused with exactly that class, and the
+    decoder is left in the context reached just before the defect -/
+theorem defect_decides (st : DecState) (h : Props.DecReach st) (rcs : List (Rep × Choice))
+    (hok : ∀ rc ∈ rcs, RepOK Gen.intCap rc.1 rc.2) (rest : Bytes) (e : DErr) (ctx : Ctx)
+    (hp : interpPrefix (abs st) (rcs.map (·.1)) [] 0 = .error (e, ctx)) :
+    (Impl.decode Gen.intCap true st (blockOctets rcs ++ rest)).1 = .err e ∧
+    abs (Impl.decode Gen.intCap true st (blockOctets rcs ++ rest)).2 = ctx :=
+  decode_prefix_error (own := true) Gen.intCap st (Props.decReach_inv h) rcs hok rest e ctx hp
+
+/-- instances: after any acceptable prefix `good`, a representation with a bad index raises the
+    invalid-table-index error, an update above the permitted maximum the invalid-table-size error, an update
+    after a field the general decoding error — whatever octets follow -/
+theorem bad_representation_class (st : DecState) (h : Props.DecReach st) (good : List (Rep × Choice)) (bad : Rep × Choice)
+    (hok : ∀ rc ∈ good ++ [bad], RepOK Gen.intCap rc.1 rc.2) (rest : Bytes)
+    (fs : List Field) (size : Nat) (ctx' : Ctx)
+    (hg : interpPrefix (abs st) (good.map (·.1)) [] 0 = .ok (fs, size, ctx'))
+    (e : DErr) (hb : interpField ctx' (!fs.isEmpty) bad.1 = .error e) :
+    (Impl.decode Gen.intCap true st (blockOctets (good ++ [bad]) ++ rest)).1 = .err e := by
+  have hp := interpPrefix_append_error (abs st) (good.map (·.1)) bad.1 [] 0 fs size ctx' hg e hb
+  have := defect_decides st h (good ++ [bad]) hok rest e ctx' (by simpa using hp)
+  exact this.1
 
 /-- the specification of the classes, clause by clause -/
 theorem spec_bad_index (ctx : Ctx) (seen : Bool) (i : Nat) (h : lookup ctx i = none) :
